@@ -39,6 +39,7 @@ var c09Anchors = []c09Anchor{
 	{"net/client/limitParallelRequests/limitParallelRequests.go", "LimitParallelRequests", "DoObserve"},
 	{"udp/server/discover.go", "Server", "DiscoveryRequest"},
 	{"net/client/receivedMessageReader.go", "ReceivedMessageReader", "loop"},
+	{"net/conn.go", "Conn", "handshake"},
 }
 
 func c09ExprText(fset *token.FileSet, e ast.Node) string {
@@ -219,6 +220,51 @@ func c09StreamWriteFacts(repo string) (writeHoldsLock, closeTakesWriteLock, writ
 	return
 }
 
+// Handshake gate (net/conn.go handshake): the transports (pion dtls, crypto/tls) serialize HandshakeContext calls with a
+// mutex, so a direct call made while another goroutine's handshake is in progress waits for that one, whatever its own
+// context says.  handshakeWaitsForCtx: every call of c.handshakeContext in handshake() is made from a `go` statement, and
+// the function waits in a select that has a case for its ctx parameter.
+func c09HandshakeFacts(repo string) (waitsForCtx bool) {
+	fset, f := parseFile(repo, "net/conn.go")
+	fd := funcDecl(f, "Conn", "handshake")
+	type span struct{ a, b token.Pos }
+	var goSpans []span
+	ast.Inspect(fd.Body, func(n ast.Node) bool {
+		if g, ok := n.(*ast.GoStmt); ok {
+			goSpans = append(goSpans, span{g.Pos(), g.End()})
+		}
+		return true
+	})
+	calls, direct := 0, 0
+	ast.Inspect(fd.Body, func(n ast.Node) bool {
+		if c, ok := n.(*ast.CallExpr); ok && c09ExprText(fset, c.Fun) == "c.handshakeContext" {
+			calls++
+			in := false
+			for _, sp := range goSpans {
+				if sp.a <= c.Pos() && c.End() <= sp.b {
+					in = true
+				}
+			}
+			if !in {
+				direct++
+			}
+		}
+		return true
+	})
+	if calls == 0 {
+		fail("net/conn.go: Conn.handshake: no call of c.handshakeContext")
+	}
+	selectsCtx := false
+	for _, w := range c09WaitsOf(fset, "net/conn.go", "Conn.handshake", fd) {
+		for _, c := range w.cases {
+			if w.kind == "select" && c == "reqctx" {
+				selectsCtx = true
+			}
+		}
+	}
+	return direct == 0 && selectsCtx
+}
+
 func init() {
 	register("BlockingWaits.lean", func(g *gen, repo string) {
 		ws := c09CollectWaits(repo)
@@ -241,6 +287,8 @@ func init() {
 		fmt.Fprintf(&b, "def closeTakesWriteLock : Bool := %v\n", cl)
 		b.WriteString("/-- net/conn.go: WriteWithContext arms a write deadline (or an AfterFunc) from its context -/\n")
 		fmt.Fprintf(&b, "def writeArmsDeadline : Bool := %v\n", ad)
+		b.WriteString("/-- net/conn.go: handshake() calls the transport's HandshakeContext only from a goroutine and waits in a select that listens to its ctx -/\n")
+		fmt.Fprintf(&b, "def handshakeWaitsForCtx : Bool := %v\n", c09HandshakeFacts(repo))
 		b.WriteString("\nend CoapVerif.Generated.BlockingWaits\n")
 		g.write("BlockingWaits.lean", b.String())
 	})
